@@ -90,3 +90,88 @@ Definition expected_inventory : list (string * string * string * string) := [
   ("recover", "kit", "openAPIPanicFree", "");
   ("recover", "kit", "readPanicFree", "")
 ].
+
+(* the same sites as normalised keys (kind, package, what the site is): Props/C01.v proves that the
+   regenerated keys are a sub-multiset of these - sites may move, merge or disappear, none may appear *)
+Definition expected_keys : list (string * string * string) := [
+  ("assert", "catalog", ".(*HTTPInteraction)");
+  ("assert", "catalog", ".(*HTTPInteraction)");
+  ("assert", "catalog", ".(*JsonRpcInteraction)");
+  ("assert", "catalog", ".(*JsonRpcInteraction)");
+  ("assert", "catalog", ".(*JsonRpcInteraction)");
+  ("assert", "catalog", ".(*JsonRpcInteraction)");
+  ("assert", "catalog", ".(*JsonRpcInteraction)");
+  ("assert", "catalog", ".(*JsonRpcInteraction)");
+  ("assert", "catalog", ".(*HTTPInteraction)");
+  ("assert", "catalog", ".(*HTTPInteraction)");
+  ("assert", "catalog", ".(*HTTPInteraction)");
+  ("assert", "catalog", ".(*HTTPInteraction)");
+  ("assert", "catalog", ".(*HTTPInteraction)");
+  ("assert", "catalog", ".(*HTTPInteraction)");
+  ("assert", "catalog", ".(*HTTPInteraction)");
+  ("assert", "catalog", ".(*HTTPInteraction)");
+  ("assert", "catalog", ".(*HTTPInteraction)");
+  ("assert", "catalog", ".(*HTTPInteraction)");
+  ("assert", "catalog", ".(*HTTPInteraction)");
+  ("assert", "catalog", ".(*HTTPInteraction)");
+  ("assert", "catalog", ".(*HTTPInteraction)");
+  ("assert", "catalog", ".(*HTTPInteraction)");
+  ("assert", "catalog", ".(*HTTPInteraction)");
+  ("assert", "catalog", ".(*HTTPInteraction)");
+  ("assert", "catalog", ".(*jschema.JSchema)");
+  ("assert", "catalog", ".(*regex.RSchema)");
+  ("assert", "catalog/ser/openapi", ".(errImpl)");
+  ("assert", "catalog/ser/openapi", ".(*catalog.HTTPInteraction)");
+  ("assert", "catalog/ser/openapi", ".(sc.ObjectInformer)");
+  ("assert", "catalog/ser/openapi", ".(*catalog.ExchangeJSightSchema)");
+  ("assert", "catalog/ser/openapi", ".(*catalog.ExchangeRegexSchema)");
+  ("assert", "core", ".(*jerr.JApiError)");
+  ("extcall", "core", "filepath.Dir");
+  ("extcall", "core", "filepath.Join");
+  ("extcall", "core", "os.Stat");
+  ("extcall", "core", "os.ReadFile");
+  ("maprange", "catalog", "NewExchangeJSightSchema");
+  ("maprange", "catalog", "ObjectBuilder.AddProperty");
+  ("maprange", "catalog/ser/openapi", "contentForVariousMediaTypes");
+  ("maprange", "catalog/ser/openapi", "makeResponseHeaders");
+  ("maprange", "catalog/ser/openapi", "newResponses");
+  ("maprange", "core", "JApiCore.buildUserTypes");
+  ("maprange", "core", "JApiCore.getPropertiesNames");
+  ("maprange", "core", "newPathVariablesSchema");
+  ("once", "catalog", "");
+  ("once", "catalog", "");
+  ("once", "directive", "");
+  ("panic", "catalog", "");
+  ("panic", "catalog", "");
+  ("panic", "catalog", "");
+  ("panic", "catalog/ser/openapi", "");
+  ("panic", "catalog/ser/openapi", "");
+  ("panic", "catalog/ser/openapi", "");
+  ("panic", "catalog/ser/openapi", "");
+  ("panic", "core", "");
+  ("panic", "core", "");
+  ("panic", "scanner", "");
+  ("panic", "scanner", "");
+  ("panic", "scanner", "");
+  ("panic", "scanner", "");
+  ("pkgvar", "catalog", "annotationReplacer : *regexp.Regexp");
+  ("pkgvar", "catalog", "exampleMu : sync.Mutex");
+  ("pkgvar", "directive", "directiveAllowedToDirectiveContext : map[github.com/jsightapi/jsight-api-core/directive.Enumeration]map[github.com/jsightapi/jsight-api-core/directive.Enumeration]struct{}");
+  ("pkgvar", "directive", "ee : map[string]github.com/jsightapi/jsight-api-core/directive.Enumeration");
+  ("pkgvar", "directive", "eeOnce : sync.Once");
+  ("pkgvar", "directive", "ss : []string");
+  ("pkgvar", "kit", "openAPIMarshalMu : sync.Mutex");
+  ("pkgvar", "scanner", "anyType : github.com/jsightapi/jsight-schema-core/bytes.Bytes");
+  ("pkgvar", "scanner", "emptyTracer : github.com/jsightapi/jsight-api-core/scanner.emptyIncludeTracer");
+  ("pkgvar", "scanner", "emptyType : github.com/jsightapi/jsight-schema-core/bytes.Bytes");
+  ("pkgvar", "scanner", "lexemeEventTypeStringMap : map[github.com/jsightapi/jsight-api-core/scanner.LexemeEventType]string");
+  ("pkgvar", "scanner", "lexemeTypeStringMap : map[github.com/jsightapi/jsight-api-core/scanner.LexemeType]string");
+  ("pkgvar", "scanner", "regexType : github.com/jsightapi/jsight-schema-core/bytes.Bytes");
+  ("pkgvar-write", "directive", "ee inside-Once.Do");
+  ("pkgvar-write", "directive", "ee inside-Once.Do");
+  ("recover", "catalog", "");
+  ("recover", "core", "");
+  ("recover", "core", "");
+  ("recover", "kit", "");
+  ("recover", "kit", "")
+].
